@@ -18,6 +18,7 @@ import (
 	"strconv"
 	"strings"
 	"sync"
+	"time"
 
 	"github.com/blinklabs-io/gouroboros/cbor"
 	"github.com/blinklabs-io/gouroboros/consensus"
@@ -31,7 +32,7 @@ import (
 )
 
 func init() {
-	register(&Prop{ID: "C40", Gen: genC40, Run: runC40})
+	register(&Prop{ID: "C40", Gen: genC40, Run: runC40, Timeout: 3 * time.Minute})
 }
 
 type c40Vrf struct{ sk, pk []byte }
@@ -130,11 +131,48 @@ func c40Serialize(tpraos bool, b *consensus.HeaderBody) ([]byte, error) {
 
 var c40Tampers = []string{"none", "blockNo", "slot", "prevHash", "issuer", "vrfKey", "vrfProof", "vrfOut",
 	"nonceProof", "nonceOut", "bodySize", "bodyHash", "ocHot", "ocSeq", "ocPeriod", "ocSig",
-	"protoMajor", "protoMinor", "kesSig", "kesSigOtherKey", "kesSigOtherT"}
+	"protoMajor", "protoMinor", "kesSig", "kesSigOtherKey", "kesSigOtherT",
+	"vrfProofLen", "vrfOutLen", "vrfKeyLen", "kesSigLen", "ocHotLen", "issuerLen", "ocSigLen",
+	"nonceProofLen", "nonceOutLen"}
+
+func g8TpraosOnly(t string) bool {
+	return t == "nonceProof" || t == "nonceOut" || t == "nonceProofLen" || t == "nonceOutLen"
+}
+
+// g8Cut drops the last byte.
+func g8Cut(b []byte) []byte { return append([]byte{}, b[:len(b)-1]...) }
+
+// g8SizeTamper applies the size tamperings shared by the hdr and blk ops.
+func g8SizeTamper(tamper string, b *consensus.HeaderBody, sig *[]byte) {
+	switch tamper {
+	case "vrfProofLen":
+		b.VrfProof = g8Cut(b.VrfProof)
+	case "vrfOutLen":
+		b.VrfOutput = g8Cut(b.VrfOutput)
+	case "vrfKeyLen":
+		b.VrfKey = g8Cut(b.VrfKey)
+	case "kesSigLen":
+		*sig = g8Cut(*sig)
+	case "ocHotLen":
+		b.OpCertHotVkey = g8Cut(b.OpCertHotVkey)
+	case "issuerLen":
+		b.IssuerVkey = g8Cut(b.IssuerVkey)
+	case "ocSigLen":
+		b.OpCertSignature = g8Cut(b.OpCertSignature)
+	case "nonceProofLen":
+		b.NonceVrfProof = g8Cut(b.NonceVrfProof)
+	case "nonceOutLen":
+		b.NonceVrfOutput = g8Cut(b.NonceVrfOutput)
+	}
+}
+
 var c40Ctxs = []string{"ok", "prevslot", "prevslot+", "blockno", "nohash", "badhash", "reg", "regbad"}
 
 func runC40(op string) string {
 	f := strings.Fields(op)
+	if len(f) > 0 && f[0] == "blk" {
+		return g8RunC40Block(f)
+	}
 	if len(f) != 12 || f[0] != "hdr" || (f[1] != "c" && f[1] != "t") {
 		return "bad-op"
 	}
@@ -159,7 +197,7 @@ func runC40(op string) string {
 	for _, c := range c40Ctxs {
 		okC = okC || c == ctx
 	}
-	if !okT || !okC || (!tpraos && (tamper == "nonceProof" || tamper == "nonceOut")) {
+	if !okT || !okC || (!tpraos && g8TpraosOnly(tamper)) {
 		return "bad-op"
 	}
 	u := c40Get(useed)
@@ -256,6 +294,7 @@ func runC40(op string) string {
 		o := &c40Kes{data: u.kesD[0][t2], t: t2, pk: hot}
 		sig, _ = o.Sign(ks.lastMsg)
 	}
+	g8SizeTamper(tamper, &b, &sig)
 	bodyCbor, err := c40Serialize(tpraos, &b)
 	if err != nil {
 		return "ser-err"
@@ -298,6 +337,8 @@ func runC40(op string) string {
 			errs = append(errs, "blockNo")
 		case strings.HasPrefix(m, "previous hash"), strings.HasPrefix(m, "previous header hash"):
 			errs = append(errs, "prevHash")
+		case strings.HasPrefix(m, "invalid VRF key size for registration"):
+			errs = append(errs, "vrfReg")
 		case strings.HasPrefix(m, "nonce VRF"), strings.HasPrefix(m, "invalid nonce VRF"):
 			errs = append(errs, "nonceVrf")
 		case strings.HasPrefix(m, "VRF proof verification"), strings.HasPrefix(m, "VRF verification failed"), strings.HasPrefix(m, "invalid VRF"):
@@ -366,6 +407,10 @@ func runC40(op string) string {
 func genC40(r *Rand, n int, tier string, emit func(string)) {
 	useeds := []string{hexs(r.Bytes(8)), hexs(r.Bytes(8))}
 	for i := 0; i < n; i++ {
+		if r.Chance(1, 4) {
+			g8GenC40Block(r, emit, useeds[r.Intn(2)])
+			continue
+		}
 		mode := Pick(r, "c", "c", "t")
 		spk := Pick(r, uint64(129600), 129600, 100, 1, 7, 3600)
 		maxEvo := Pick(r, uint64(62), 62, 62, 64, 1, 5, 63)
@@ -399,7 +444,7 @@ func genC40(r *Rand, n int, tier string, emit func(string)) {
 		tamper := "none"
 		if r.Chance(3, 5) {
 			tamper = c40Tampers[r.Intn(len(c40Tampers))]
-			if mode == "c" && (tamper == "nonceProof" || tamper == "nonceOut") {
+			if mode == "c" && g8TpraosOnly(tamper) {
 				tamper = "vrfProof"
 			}
 		}
